@@ -63,18 +63,18 @@ type Config struct {
 }
 
 type Server struct {
-	cfg Config
-	mu  sync.Mutex
-	log []Req
-	raw bytes.Buffer // every byte received on every connection, in arrival order per connection
-	connects []string
+	cfg            Config
+	mu             sync.Mutex
+	log            []Req
+	raw            bytes.Buffer // every byte received on every connection, in arrival order per connection
+	connects       []string
 	plainProxyReqs []string
-	ln  net.Listener
-	pln net.Listener
-	srv *http.Server
-	leaf tls.Certificate
-	CAPEM []byte
-	nonce int
+	ln             net.Listener
+	pln            net.Listener
+	srv            *http.Server
+	leaf           tls.Certificate
+	CAPEM          []byte
+	nonce          int
 }
 
 // New starts a plain-HTTP listener (URL()) and a CONNECT proxy (ProxyURL()).
@@ -96,8 +96,8 @@ func New(cfg Config) (*Server, error) {
 	return s, nil
 }
 
-func (s *Server) URL() string      { return "http://" + s.ln.Addr().String() }
-func (s *Server) ProxyURL() string { return "http://" + s.pln.Addr().String() }
+func (s *Server) URL() string       { return "http://" + s.ln.Addr().String() }
+func (s *Server) ProxyURL() string  { return "http://" + s.pln.Addr().String() }
 func (s *Server) ProxyAddr() string { return s.pln.Addr().String() }
 
 func (s *Server) Close() {
@@ -209,7 +209,14 @@ func (l *oneConnListener) Accept() (net.Conn, error) {
 	<-l.done
 	return nil, fmt.Errorf("closed")
 }
-func (l *oneConnListener) Close() error   { select { case <-l.done: default: close(l.done) }; return nil }
+func (l *oneConnListener) Close() error {
+	select {
+	case <-l.done:
+	default:
+		close(l.done)
+	}
+	return nil
+}
 func (l *oneConnListener) Addr() net.Addr { return l.c.LocalAddr() }
 
 type notifyConn struct {
